@@ -511,6 +511,16 @@ class SymReal(_Num):
         q = self / o
         return SymReal(z3.ToReal(z3.ToInt(q.t)))
 
+    def __mod__(self, o):
+        # python's float modulo for a concrete positive modulus: x - m*floor(x/m) (linear with an integer part); a symbolic
+        # or non-positive modulus would be non-linear mixed integer/real arithmetic -> Unsupported (the case fails loudly)
+        if isinstance(o, np.ndarray):
+            return NotImplemented
+        if _is_num(o) and float(o) > 0:
+            m = rval(o)
+            return SymReal(self.t - m * z3.ToReal(z3.ToInt(self.t / m)))
+        raise Unsupported("%% of a symbolic real with a symbolic or non-positive modulus")
+
     def __neg__(self):
         return SymReal(-self.t)
 
